@@ -256,28 +256,22 @@ pub fn c15_q_ts_fmt_shape_roundtrip() {
     kani::cover!(prec == 3, "precision 3");
 }
 
-/// Sub-second round trip. Bound: the nanosecond value has at most THREE non-zero decimal digits,
-/// at symbolic positions with symbolic values (the remaining digits are zero); every precision.
+/// Sub-second round trip. Bound: the nanosecond value has at most `NDIG` non-zero decimal digits at symbolic
+/// positions with symbolic values (the remaining digits are zero); every precision.
 /// parse(format(t, p)) carries the fraction truncated to p digits.
-#[kani::proof]
-#[kani::unwind(34)]
-#[kani::stub(emit_core::timestamp::Timestamp::from_parts, rec_from_parts)]
-#[kani::stub(emit_core::timestamp::Timestamp::to_parts, stub_to_parts)]
-#[kani::stub(core::str::from_utf8, ascii_from_utf8)]
-pub fn c15_q_ts_fmt_nanos_roundtrip() {
+fn nanos_roundtrip(ndig: usize) {
     const P10: [u32; 9] = [100_000_000, 10_000_000, 1_000_000, 100_000, 10_000, 1_000, 100, 10, 1];
     let mut dg = [0u8; 9];
-    let k1: usize = kani::any();
-    let k2: usize = kani::any();
-    let k3: usize = kani::any();
-    kani::assume(k1 < 9 && k2 < 9 && k3 < 9);
-    let d1: u8 = kani::any();
-    let d2: u8 = kani::any();
-    let d3: u8 = kani::any();
-    kani::assume(d1 <= 9 && d2 <= 9 && d3 <= 9);
-    dg[k1] = d1;
-    dg[k2] = d2;
-    dg[k3] = d3;
+    let mut j = 0;
+    while j < 3 {
+        if j < ndig {
+            let k: usize = kani::any();
+            let d: u8 = kani::any();
+            kani::assume(k < 9 && d <= 9);
+            dg[k] = d;
+        }
+        j += 1;
+    }
     let mut nanos = 0u32;
     let mut i = 0;
     while i < 9 { nanos += dg[i] as u32 * P10[i]; i += 1; }
@@ -303,8 +297,29 @@ pub fn c15_q_ts_fmt_nanos_roundtrip() {
     while i < 9 { if i < eff { want += dg[i] as u32 * P10[i]; } i += 1; }
     assert!(got.nanos == want, "fraction truncated to the precision");
     kani::cover!(prec == 3 && nanos % 1_000_000 != 0, "truncating precision");
-    kani::cover!(prec == 10 && nanos == 900_000_009, "both ends");
+    kani::cover!(prec == 10 && nanos != 0, "default precision, non-zero fraction");
 }
+
+#[kani::proof]
+#[kani::unwind(34)]
+#[kani::stub(emit_core::timestamp::Timestamp::from_parts, rec_from_parts)]
+#[kani::stub(emit_core::timestamp::Timestamp::to_parts, stub_to_parts)]
+#[kani::stub(core::str::from_utf8, ascii_from_utf8)]
+pub fn c15_q_ts_fmt_nanos_roundtrip_1digit() { nanos_roundtrip(1); }
+
+#[kani::proof]
+#[kani::unwind(34)]
+#[kani::stub(emit_core::timestamp::Timestamp::from_parts, rec_from_parts)]
+#[kani::stub(emit_core::timestamp::Timestamp::to_parts, stub_to_parts)]
+#[kani::stub(core::str::from_utf8, ascii_from_utf8)]
+pub fn c15_q_ts_fmt_nanos_roundtrip_2digits() { nanos_roundtrip(2); }
+
+#[kani::proof]
+#[kani::unwind(34)]
+#[kani::stub(emit_core::timestamp::Timestamp::from_parts, rec_from_parts)]
+#[kani::stub(emit_core::timestamp::Timestamp::to_parts, stub_to_parts)]
+#[kani::stub(core::str::from_utf8, ascii_from_utf8)]
+pub fn c15_t_ts_fmt_nanos_roundtrip_3digits() { nanos_roundtrip(3); }
 
 /// Fixed-width digits: text order = parts order (with E2's monotonicity of to_parts this is
 /// "formatted timestamps order as instants do"). Bound: nanos restricted as above (<= 2 digits).
